@@ -257,3 +257,17 @@ def x12(cx: Cx, ob: Ob) -> None:
     from ..rules import package_lints
 
     package_lints(cx, ob, {'api.py'})
+
+
+@obligation("C07-X14", "the default standardize_identifier hook is the identity (shared with C02-D8): the CURIE-side operations accept and keep exactly the identifiers the URI-side operations produce", floor=1)
+def x14(cx: Cx, ob: Ob) -> None:
+    from .c02 import check_identifier_hook
+
+    check_identifier_hook(cx, ob)
+
+
+@obligation("C07-X15", "configuration propagation (shared with C09-D4): converters derived from a converter keep its delimiter, so the derived converter splits and joins CURIEs where its parent does", floor=2)
+def x15(cx: Cx, ob: Ob) -> None:
+    from .c09 import d4 as propagation
+
+    propagation(cx, ob)
